@@ -139,3 +139,20 @@ Theorem C04_crash_seen_example :
   end.
 Proof. exact crash_seen_example. Qed.
 Print Assumptions C04_crash_seen_example.
+
+(* The first run of a job - whether it is still going, or was killed or stopped at any instant: a row is deleted only for
+   a seed whose own URL was REQUESTED in that run (the request ended in a complete record or failed for good).  Nothing
+   else - not "already seen", not "out of scope": the queue's rows are in scope - ends a queued URL.  (After a restart the
+   seen-store can: C04_seen_write_ahead_refuted.) *)
+Theorem C04_first_run_deleted_was_fetched : forall sc ids ls s,
+  srun (sinit sc ids) ls = Some s -> no_restart ls = true ->
+  forall i, In i (s_deleted s) -> In i (s_warc s) \/ In i (s_failed s).
+Proof. exact first_run_deleted_was_fetched. Qed.
+Print Assumptions C04_first_run_deleted_was_fetched.
+
+Theorem C04_first_run_example :
+  exists s, srun (sinit true [1; 2])
+     [SClaim [1; 2]; SInsert 1; SInsert 2; SPre 1; SPre 2; SCapture 1; SFail 2; SFinish 1; SFinish 2; SDelete [1; 2]; SCrash] = Some s
+  /\ s_deleted s = [1; 2] /\ s_warc s = [1] /\ s_failed s = [2].
+Proof. exact first_run_example. Qed.
+Print Assumptions C04_first_run_example.
